@@ -226,7 +226,8 @@ def safesub(x, y):
 @truediv.make
 def safediv(x, y):
     if isinstance(y, Number):
-        return operator.truediv(x, y)
+        # Like the array implementations: never produce nan from 0 / 0.
+        return x * _builtin_min(1.0 / y if y != 0 else math.inf, sys.float_info.max)
 
 
 @exp.set_log_abs_det_jacobian
